@@ -53,8 +53,21 @@ func run(c Case) *pbt.Fail {
 	lastField = ""
 	sys := sysByName(c.System)
 	in := sys.build(c.W)
-	proof := in.prove(ctx("s1", "prover", false))
 	wc := fmt.Sprintf("%s:x=%s,y=%s", c.System, c.W.X, c.W.Y)
+	if outOfRange(c.W.X) || outOfRange(c.W.Y) {
+		// range soundness: the library's prover run on a witness far outside the proven range yields a proof whose
+		// only flaw is an out-of-range response; it must be rejected
+		var proof interface{}
+		if panicked, _ := ev.Guard(func() { proof = in.prove(ctx("s1", "prover", false)) }); panicked || proof == nil || reflect.ValueOf(proof).IsNil() {
+			ev.Get().Count("range_prover_refused", 1)
+			return nil
+		}
+		if accepts(func() bool { return in.verify(ctx("s1", "prover", false), proof) }) {
+			return pbt.Failf("unsound:"+c.System+":range:x="+c.W.X+",y="+c.W.Y, "a proof for a witness far outside the proven range verifies ("+wc+")")
+		}
+		return nil
+	}
+	proof := in.prove(ctx("s1", "prover", false))
 	if proof == nil || reflect.ValueOf(proof).IsNil() {
 		return pbt.Failf("incomplete:"+wc, "prover returned no proof for a witness inside the documented range")
 	}
@@ -125,6 +138,9 @@ func gen(t *rapid.T, names []string) Case {
 	c.W.KA = rapid.IntRange(0, 5).Draw(t, "ka")
 	c.W.KB = 6 + rapid.IntRange(0, 5).Draw(t, "kb")
 	c.Perturb = rapid.SampledFrom(perturbs).Draw(t, "perturb")
+	if outOfRange(c.W.X) || outOfRange(c.W.Y) {
+		c.Perturb = "range"
+	}
 	if sys.name == "nth" && c.W.X != "rand" && c.Perturb != "public" {
 		// rho in {1, N-1} makes R an element of order <= 2: R^e does not depend on e (beyond its parity), so such a
 		// proof is valid under every challenge by arithmetic necessity; only completeness is meaningful there
